@@ -33,9 +33,11 @@ from .w3dtf import _parse_date_w3dtf
 _hungarian_months = {
     "janu\u00e1r": "01",  # e1 in iso-8859-2
     "febru\u00e1ri": "02",  # e1 in iso-8859-2
+    "febru\u00e1r": "02",  # e1 in iso-8859-2
     "m\u00e1rcius": "03",  # e1 in iso-8859-2
     "\u00e1prilis": "04",  # e1 in iso-8859-2
     "m\u00e1ujus": "05",  # e1 in iso-8859-2
+    "m\u00e1jus": "05",  # e1 in iso-8859-2
     "j\u00fanius": "06",  # fa in iso-8859-2
     "j\u00falius": "07",  # fa in iso-8859-2
     "augusztus": "08",
